@@ -165,6 +165,16 @@ CHECKS = {
              "Count mismatches and wrong specification types must be rejected at decoration time (enumerated).",
         note="Keyword-only/variadic parameters are outside the documented contract. An undefined reference in a wraps specification is only detected at call time (observation; the statement promises decoration-time rejection for count mismatches only).",
         design="5/C17"),
+    "C18": dict(
+        technique="Hypothesis round-trip testing (pickle protocols 0-5, copy, deepcopy, to_tuple/from_tuple) of quantities, units, measurements, unit containers, parser helpers and every pint exception class, with application-registry swaps between unpickles; enumeration-by-generation of cross-registry operator pairs; op-sequence testing of a deep-copied registry pair; differential of the lazy default registry against an explicit one in fresh interpreters",
+        text="Objects over the whole registry (incl. prefixed units the receiving registry has never parsed; int/float/Fraction/Decimal/ndarray magnitudes) are sent "
+             "through each transport; content (class family, magnitude type/dtype/value, unit items) must be identical, unpickled objects must belong to the freshly "
+             "installed application registry and be usable there (format '~', to_root_units), also after the application registry has been swapped again. Exceptions "
+             "must keep type, public fields and message. Every binary operator and ordering between Quantity/Unit objects of two registries (fresh, deep-copied, "
+             "application) must raise ValueError. Edits on either side of a deep-copied pair (definitions, contexts, groups, systems, default system/format) must "
+             "never change the other side's battery, and objects reached through the copy must belong to it. The lazily built default registry must answer like an explicit one.",
+        note="Round-trip equality is judged on content, not with == (unpickled objects belong to the application registry by design). Unit ** Quantity and in-place operators on Units are not operations and are skipped.",
+        design="5/C18"),
     "C20": dict(
         technique="complete enumeration of an independently curated table of ~260 standard values x spellings x {Fraction, float} registries (differential oracle: the table)",
         text="Each entry of data/standards.txt (SI and binary prefixes, SI units, defining constants, yard/pound multiples, US/imperial capacity, avoirdupois/"
